@@ -19,6 +19,7 @@ DECIDED += "; R9 inverse records of one name are selected alike by sync_dir (own
 DECIDED += "; R12 a namespace record never overtakes an earlier record on the same name: sync_dir's selection is closed over names or selects no foreign names (recorded finding D43); R2 also: the crash drops the page cache"
 DECIDED += '; R13 a data sync inserts the placeholder inode only when persisted_files has none for the path; a truncating open logs its SetLen(0) whatever it created (shared C10-R5)'
 DECIDED += "; R14 inside the syncs the pending log is only drained and re-assigned; apply_op_to_persisted's SetLen arm resizes to the recorded length and its Rename arm inserts the moved inode unconditionally"
+DECIDED += '; a ring fsync flushes when its completion is reaped (shared C18-R12)'
 ASSUMPTIONS = ["IndexMap / IndexSet / Vec API semantics"]
 
 FS = "turmoil_fs::Fs::"
